@@ -20,6 +20,7 @@ anyvec_pbt::configs! {
     Pl8_Multi:    Pl8,    Multi, dyn Cloneable, G_LAYOUT | G_FAULT;
     Pl3_Heap:     Pl3,    Heap,   dyn Cloneable, G_BACKEND | G_RAW;
     Tr8_Empty:    Tr8,    any_vec::mem::Empty, dyn Cloneable, G_RAW;
+    Tr0a16_Empty: Tr0a16, any_vec::mem::Empty, dyn None, G_RAW;
     Tr8_Stack:    Tr8,    Stack<40>,      dyn Cloneable, G_BACKEND | G_STACK | G_FAULT;
     Tr24_StackN:  Tr24,   StackN<3, 72>,  dyn Cloneable, G_BACKEND | G_STACK;
     Tr8_Heap_SS:    Tr8, Heap, dyn Send + Sync,             G_CONSTRAINT | G_RAW;
